@@ -58,7 +58,12 @@ def check_def(args):
         out["skipped"] = "reference: %s: %s" % (type(e).__name__, e)
         return out
     try:
-        m, order = build.build(d, lambda_backend=(backend == "lambda"))
+        if backend == "grown":
+            ns_, np_ = len(d["states"]), len(d["params"])
+            x_, t_, th_ = points.points(ns_, np_, seed)[1]
+            m, order = build.build_grown(d, x_, t_, th_)
+        else:
+            m, order = build.build(d, lambda_backend=(backend == "lambda"))
     except Exception as e:
         viol("C01", "construction-raised", error="%s: %s" % (type(e).__name__, e))
         return out
@@ -149,34 +154,44 @@ def check_def(args):
         G = R.grad()
         DJ = R.diff_jacobian()
         GJ = R.grad_jacobian()
-        try:
-            ok, why = sym_equal(m.get_jacobian_eqn(), J, R)
-            if not ok:
-                viol("C03", "symbolic-jacobian", why=why)
-            if npar:
-                ok, why = sym_equal(m.get_grad_eqn(), G, R)
-                if not ok:
-                    viol("C03", "symbolic-grad", why=why)
-                ok, why = sym_equal(m.get_grad_jacobian_eqn(), GJ, R)
-                if not ok:
-                    viol("C03", "symbolic-grad-jacobian", why=why)
-            ok, why = sym_equal(m.get_diff_jacobian_eqn(), DJ, R)
-            if not ok:
-                viol("C03", "symbolic-diff-jacobian", why=why)
-        except Exception as e:
-            viol("C03", "symbolic-raised", error="%s: %s" % (type(e).__name__, e))
-        num_compare("C03", "jacobian", m.jacobian, J, (ns, ns))
+        def symcheck(label, getter, want):
+            def go():
+                try:
+                    ok, why = sym_equal(getter(), want, R)
+                    if not ok:
+                        viol("C03", "symbolic-" + label, why=why)
+                except Exception as e:
+                    viol("C03", "symbolic-raised", which=label, error="%s: %s" % (type(e).__name__, e))
+            return go
+
+        steps = [symcheck("jacobian", m.get_jacobian_eqn, J)]
         if npar:
-            num_compare("C03", "grad", m.grad, G, (ns, npar))
-            num_compare("C03", "grad_jacobian", m.grad_jacobian, GJ, (ns * npar, ns))
-        num_compare("C03", "diff_jacobian", m.diff_jacobian, DJ, (ns * ns, ns))
+            steps += [symcheck("grad", m.get_grad_eqn, G), symcheck("grad-jacobian", m.get_grad_jacobian_eqn, GJ)]
+        steps.append(symcheck("diff-jacobian", m.get_diff_jacobian_eqn, DJ))
+        steps.append(lambda: num_compare("C03", "jacobian", m.jacobian, J, (ns, ns)))
+        if npar:
+            steps.append(lambda: num_compare("C03", "grad", m.grad, G, (ns, npar)))
+            steps.append(lambda: num_compare("C03", "grad_jacobian", m.grad_jacobian, GJ, (ns * npar, ns)))
+        steps.append(lambda: num_compare("C03", "diff_jacobian", m.diff_jacobian, DJ, (ns * ns, ns)))
         if ne:
             # Cao's statistics are defined through the rate vector and the state-change matrix
             Rp = _PermRef(R, V, a)
             F = Rp.transition_jacobian()
-            num_compare("C03", "transitionJacobian", m.transitionJacobian, F, (ne, ne))
-            num_compare("C03", "transitionMean", m.transitionMean, Rp.transition_mean(), (ne,))
-            num_compare("C03", "transitionVar", m.transitionVar, Rp.transition_var(), (ne,))
+            steps.append(lambda: num_compare("C03", "transitionJacobian", m.transitionJacobian, F, (ne, ne)))
+            steps.append(lambda: num_compare("C03", "transitionMean", m.transitionMean, Rp.transition_mean(), (ne,)))
+            steps.append(lambda: num_compare("C03", "transitionVar", m.transitionVar, Rp.transition_var(), (ne,)))
+        if backend == "grown":
+            # a model reached through a history may answer differently depending on what is asked first: the order of
+            # the questions is rotated (and reversed for every other definition) by a hash of the definition's name
+            import zlib
+            h = zlib.crc32(name.encode())
+            k = h % len(steps)
+            steps = steps[k:] + steps[:k]
+            if (h >> 8) & 1:
+                steps.reverse()
+            out["features"]["grown:first=%d%s" % (k, "r" if (h >> 8) & 1 else "")] = 1
+        for st in steps:
+            st()
         # non-triviality: would a transposed jacobian be noticed?
         x, t, th = pts[0]
         Jn = np.asarray(R.num(J, x, t, th))
